@@ -729,6 +729,35 @@ pub fn c05(ctx: &Ctx) -> Report {
         let a2 = Alphabet { modes: true, ..polls(3) };
         explore(MidiM::new(0, a2).observed_edges(), &ExploreCfg { max_depth: None, state_cap: 30_000_000, threads: ctx.threads, label: "edges relative to the observed gate, main alphabet K=3 with mode switches".into() }, &mut rep, p);
     }
+    // every velocity with polls (the alphabets above use two): a velocity must not decide whether an edge is raised
+    par_ranges(ctx, &mut rep, 127 * 2, 64, |_, lo, hi, lc| {
+        for i in lo..hi {
+            let v = (i / 2 + 1) as u8;
+            let retrig = i % 2 == 1;
+            let mut m = MidiM::new(7, Alphabet { notes: vec![], vels: vec![], k: 32, modes: true, polls: true, ccs: vec![], bends: vec![], foreign: false, edge_note: None });
+            let ops = [MOp::Retrig(retrig), MOp::On(60, v), MOp::PollR, MOp::PollR, MOp::On(64, 128 - v), MOp::PollR, MOp::Off(60), MOp::PollF, MOp::On(60, v), MOp::PollR, MOp::Off(64), MOp::Off(60), MOp::PollF, MOp::PollF, MOp::PollR];
+            for (n, op) in ops.iter().enumerate() {
+                let mut out = StepOut::new();
+                let r = std::panic::catch_unwind(std::panic::AssertUnwindSafe(|| m.apply(op, &mut out)));
+                let script = || ops[..=n].iter().map(MidiM::op_str).collect::<Vec<_>>();
+                if let Err(e) = r {
+                    lc.violation(Violation { prop: "C05", class: "panic".into(), detail: format!("the real code panicked: {}", panic_msg(&e)), machine: "midi", config: json!({"channel": 7}), ops: script() });
+                    break;
+                }
+                let mut stop = false;
+                for f in out.flags {
+                    if f.prop == "C05" {
+                        lc.violation(Violation { prop: "C05", class: f.class, detail: f.detail, machine: "midi", config: json!({"channel": 7}), ops: script() });
+                        stop = true;
+                    }
+                }
+                if stop {
+                    break;
+                }
+            }
+            lc.count("velocity_poll_scripts", 1);
+        }
+    });
     long_runs(ctx, &mut rep, p, true);
     enumerate_sequences(&MidiM::new(0, Alphabet { notes: vec![5, 64], vels: vec![100], modes: false, foreign: false, ..polls(4) }), if ctx.tier.is_thorough() { 7 } else { 6 }, ctx, &mut rep, p, "all message / poll sequences, no state matching");
     rep.nontrivial = rep.counters.get("rising_polls_expected_true").copied().unwrap_or(0) + rep.counters.get("falling_polls_expected_true").copied().unwrap_or(0);
